@@ -181,7 +181,7 @@ PROPS = {
                                         "independent oracle in the harness: 3-D unit-vector great-circle distance / distance-to-segment in float64",
                                         "hook pkg/gopro/gpmf/geo/verif_hooks.go (build tag verif) exposes unexported helpers"],
         "assumptions": ["the guard band (1% + 0.1 mm) is the floating-point slack: it is established by this sampling only, the theorems over ℝ have no band"],
-        "partial_notes": ["onLine_sound / onLine_complete (full equivalence with the great-circle distance to the segment over ℝ, incl. the cross-track and along-track tests) are not proved; proved: tolerance monotonicity for any order, end caps (also end to end in degrees: near_an_end_is_hit, position_at_an_end_is_hit), hav/invHav/havSin identities, end-point symmetry of the end-cap and length quantities, and that longitudes enter only through their differences and only up to whole turns of 360 degrees (longitude_period, longitude_origin)"],
+        "partial_notes": ["onLine_sound / onLine_complete (full equivalence with the great-circle distance to the segment over ℝ, incl. the cross-track and along-track tests) are not proved; proved: tolerance monotonicity for any order, end caps (also end to end in degrees: near_an_end_is_hit, position_at_an_end_is_hit), hav/invHav/havSin identities, end-point symmetry of the end-cap and length quantities, and that longitudes enter only through their differences and only up to whole turns of 360 degrees (longitude_period, longitude_origin), and the decision for positions on the line's own great circle (zero bearing difference): between the ends = hit for every tolerance, zero included (on_the_segment_is_hit, non-vacuous along the equator: equator_on_great_circle); beyond an end by more than the tolerance = miss (beyond_the_end_is_miss)"],
     },
     "C18": {
         "props": "TrackVerif.Geo.PropsC18",
